@@ -15,7 +15,7 @@ class Env(object):
     __slots__ = ('recv', 'send', 'send_closed', 'used')
 
     def __init__(self, recv=None, send=None, send_closed=None):
-        self.recv = recv              # None | 'one'
+        self.recv = recv              # None | 'one' | 'eagain'
         self.send = send              # None | 'one' | 'allbut1' | 'eagain'
         self.send_closed = send_closed  # None | 'discard'
         self.used = False
@@ -124,6 +124,10 @@ class StreamSocket(object):
             raise BlockingIOError(errno.EAGAIN, 'Resource temporarily unavailable')
         take = min(bufsize, len(buf))
         env = _env
+        if env.recv == 'eagain' and not env.used:
+            # a spurious wake-up: the socket was reported readable, this read finds nothing (the octets stay)
+            env.used = True
+            raise BlockingIOError(errno.EAGAIN, 'Resource temporarily unavailable')
         if env.recv == 'one' and not env.used:
             if take > 1:
                 env.used = True
